@@ -87,3 +87,85 @@ def resolve_exc_class(prog: Program, mi, e: ast.expr) -> Optional[str]:
         if isinstance(obj, type) and issubclass(obj, BaseException):
             return e.id
     return None
+
+
+def _const_dict_ast(prog: Program, mi, e: ast.expr):
+    """(module, ast.Dict) when ``e`` names a dict literal bound once at module or class level"""
+    r = prog.resolve_name_expr(mi, e) if isinstance(e, (ast.Name, ast.Attribute)) else None
+    if r and r[0] == "const" and r[1].const_multi.get(r[2]) == 1 and isinstance(r[1].consts[r[2]], ast.Dict):
+        return r[1], r[1].consts[r[2]]
+    if r and r[0] == "classattr" and isinstance(r[1].class_attrs.get(r[2]), ast.Dict):
+        return r[1].module, r[1].class_attrs[r[2]]
+    if isinstance(e, ast.Attribute) and isinstance(e.value, ast.Name) and e.value.id in ("self", "cls"):
+        for ci in mi.classes.values():
+            if isinstance(ci.class_attrs.get(e.attr), ast.Dict):
+                return mi, ci.class_attrs[e.attr]
+    return None
+
+
+def resolve_exc_classes(prog: Program, mi, e: ast.expr, env=None):
+    """all exception classes the expression of a ``raise`` may denote: a class, a class taken from a constant
+    dict (``TABLE[k]`` / ``TABLE.get(k, Default)``), or a parameter bound in ``env``; None when it cannot be told"""
+    env = env or {}
+    if isinstance(e, ast.Call) and isinstance(e.func, ast.Attribute) and e.func.attr == "get" and e.args \
+            and _const_dict_ast(prog, mi, e.func.value) is not None:
+        pass  # TABLE.get(k, Default): handled as a table lookup below
+    elif isinstance(e, ast.Call):
+        inner = e.func
+        # X(...) where X is itself TABLE.get(...)  /  TABLE[...]
+        if isinstance(inner, (ast.Call, ast.Subscript)) or (isinstance(inner, ast.Name) and inner.id in env):
+            return resolve_exc_classes(prog, mi, inner, env)
+        one = resolve_exc_class(prog, mi, e)
+        return [one] if one else None
+    if isinstance(e, ast.Name) and e.id in env:
+        v = env[e.id]
+        if isinstance(v, tuple) and v and v[0] == "class":
+            return [v[1]]
+        return None
+    if isinstance(e, (ast.Name, ast.Attribute)):
+        one = resolve_exc_class(prog, mi, e)
+        return [one] if one else None
+    table, key, default = None, None, None
+    if isinstance(e, ast.Call) and isinstance(e.func, ast.Attribute) and e.func.attr == "get" and e.args:
+        table, key = e.func.value, e.args[0]
+        default = e.args[1] if len(e.args) > 1 else False
+    elif isinstance(e, ast.Subscript):
+        table, key = e.value, e.slice
+    if table is None:
+        return None
+    d = _const_dict_ast(prog, mi, table)
+    if d is None:
+        return None
+    dm, dast = d
+    kv = prog.const(mi, key, local={k: v for k, v in env.items() if not (isinstance(v, tuple) and v and v[0] == "class")})
+    out = []
+    from .model import UNKNOWN
+    hit = False
+    for k, v in zip(dast.keys, dast.values):
+        if k is None:
+            return None
+        c = resolve_exc_class(prog, dm, v)
+        if c is None:
+            return None
+        if kv is not UNKNOWN:
+            if prog.const(dm, k) == kv:
+                out.append(c)
+                hit = True
+        else:
+            out.append(c)
+    if (kv is UNKNOWN or not hit) and default is not None:
+        if default is False:
+            if kv is not UNKNOWN and not hit and isinstance(e, ast.Call):
+                return None  # .get() without default yields None: raising it is a TypeError
+            if isinstance(e, ast.Subscript) and not hit and kv is not UNKNOWN:
+                out.append("KeyError")
+        else:
+            dc = resolve_exc_classes(prog, mi, default, env)
+            if dc is None:
+                return None
+            out.extend(dc)
+    seen = []
+    for c in out:
+        if c not in seen:
+            seen.append(c)
+    return seen or None
